@@ -182,14 +182,20 @@ def generate(repo):
     rt = _remove_sites(pa, 'map_obj.by_target')
     if rc == [] and rt == []:
         i = False
-    elif rc == ["'worldspawn'"] and rt == ['None'] and all(
-            _norm(c.args[2]) == 'map_obj.spawn' for c in _calls(pa, '_remove_copyset')):
-        # must happen before map_obj.spawn is rebound
-        lines = {('rm' if isinstance(n, ast.Call) else 'bind'): n.lineno for n in ast.walk(pa)
-                 if (isinstance(n, ast.Call) and isinstance(n.func, ast.Name) and n.func.id == '_remove_copyset')
-                 or (isinstance(n, ast.Assign) and any(_norm(t) == 'map_obj.spawn' for t in n.targets))}
-        if 'bind' not in lines or lines['rm'] > lines['bind']:
-            raise ExtractError('VMF.parse: placeholder removal must precede the rebinding of map_obj.spawn')
+    elif rc == ["'worldspawn'"] and rt == ['None']:
+        # both removals must name the entity that was `map_obj.spawn` BEFORE the world block rebinds it:
+        #   <name> = map_obj.spawn            (saved reference)
+        #   map_obj.spawn = … Entity.parse(…)  (rebinding)
+        args = {_norm(c.args[2]) for c in _calls(pa, '_remove_copyset')}
+        binds = [n.lineno for n in ast.walk(pa) if isinstance(n, ast.Assign)
+                 and any(_norm(t) == 'map_obj.spawn' for t in n.targets)]
+        saves = {_norm(n.targets[0]): n.lineno for n in ast.walk(pa) if isinstance(n, ast.Assign)
+                 and len(n.targets) == 1 and isinstance(n.targets[0], ast.Name) and _norm(n.value) == 'map_obj.spawn'}
+        if len(binds) != 1 or len(args) != 1:
+            raise ExtractError(f'VMF.parse: placeholder removal not recognised ({args}, {binds})')
+        arg = args.pop()
+        if arg not in saves or saves[arg] > binds[0]:
+            raise ExtractError(f'VMF.parse: {arg} is not the worldspawn saved before map_obj.spawn is rebound')
         i = True
     else:
         raise ExtractError(f'VMF.parse: unrecognised index removals {rc} {rt}')
